@@ -806,6 +806,24 @@ def run_iter_mut(root):
         # later functions may call this one (the stub if it could not be translated)
         key = ("method", RUST_STRUCT[rust_ty], name) if selfmode else ("assoc", rust_ty, name)
         funcs[key] = (lname, selfmode, ptypes, ret)
+    # the model takes the PROVIDED definitions of every other Iterator / DoubleEndedIterator / ExactSizeIterator method
+    # (nth = n calls of next and one more, fold = next until None, ...): an override in the source is outside it
+    if src is not None:
+        for m in re.finditer(r"impl\s*<[^{]*?>\s*(Iterator|DoubleEndedIterator|ExactSizeIterator)\s+for\s+(IterVectorsMut|IterNthVectorMut)\b[^{]*\{", src):
+            depth, i = 1, m.end()
+            while i < len(src) and depth:
+                depth += {"{": 1, "}": -1}.get(src[i], 0); i += 1
+            body = src[m.end():i]
+            d, j, top = 0, 0, []
+            for fm in re.finditer(r"[{}]|\bfn\s+([A-Za-z_0-9]+)", body):
+                if fm.group(0) == "{": d += 1
+                elif fm.group(0) == "}": d -= 1
+                elif d == 0: top.append(fm.group(1))
+            allowed = {"Iterator": {"next", "size_hint"}, "DoubleEndedIterator": {"next_back"}, "ExactSizeIterator": {"len"}}[m.group(1)]
+            for name in top:
+                if name not in allowed:
+                    failed.append((f"IterMut.override:{m.group(2)}.{name}",
+                                   f"`{m.group(1)}::{name}` is overridden for {m.group(2)}; the model and the theorems of C03 / C06 / C17 take the provided definition"))
     return HEADER + "\n".join(out) + "\nend Matreex.Gen.IterMut\n", done, failed
 
 
